@@ -265,3 +265,96 @@ def exhaustive_patterns(thorough=False):
             for p3 in seq_parts[: (6 if thorough else 4)]:
                 out.append("^" + p1 + p2 + p3 + "$")
     return out
+
+
+# ---- parameters / operations (mechanisms `location`, `draws`) -----------------------------------------------------------
+
+PARAM_NAMES = {"path": ["id", "slug", "n"], "query": ["q", "limit", "flag", "sort"], "header": ["X-Token", "X-Count", "X-Mode"],
+               "cookie": ["sid", "pref"]}
+
+
+def gen_primitive_schema(rng, nn, location):
+    """a primitive-typed parameter schema (what non-body parameters overwhelmingly are)"""
+    kind = rng.choice(["string", "string", "integer", "boolean", "enum", "number"] + ([] if location in ("header", "cookie") else ["untyped"]))
+    if kind == "string":
+        s = gen_string_schema(rng)
+        s.pop("enum", None)
+        if location == "path":  # keep the path satisfiable and formattable
+            if s.get("maxLength") == 0:
+                s["maxLength"] = 2
+    elif kind == "integer":
+        s = {"type": "integer"}
+        if rng.random() < 0.6:
+            s["minimum"] = rng.randint(-3, 3)
+        if rng.random() < 0.6:
+            s["maximum"] = s.get("minimum", 0) + rng.randint(0, 5)
+    elif kind == "number":
+        s = {"type": "number", "minimum": 0, "maximum": 10}
+    elif kind == "boolean":
+        s = {"type": "boolean"}
+    elif kind == "enum":
+        s = {"type": "string", "enum": rng.sample(["a", "bc", "x-1", "true", "10"], rng.randint(1, 3))}
+    else:
+        s = {}
+    if rng.random() < 0.2 and location != "path":
+        s[nn] = True
+    if rng.random() < 0.15:
+        s["description"] = "d"
+    if rng.random() < 0.1:
+        s["x-ext"] = 1
+    return s
+
+
+def gen_parameters(rng, version, nn):
+    """[(location, definition)] for one operation; path parameters are the template variables"""
+    out, path_vars = [], rng.sample(PARAM_NAMES["path"], rng.randint(0, 2))
+    for loc in ("path", "query", "header", "cookie"):
+        if loc == "cookie" and version == "2.0":
+            continue
+        names = path_vars if loc == "path" else rng.sample(PARAM_NAMES[loc], rng.randint(0, len(PARAM_NAMES[loc]) - 1))
+        for name in names:
+            sch = gen_primitive_schema(rng, nn, loc)
+            required = True if loc == "path" else rng.random() < 0.5
+            if version == "2.0":
+                d = {"name": name, "in": loc, **sch}
+                d.setdefault("type", "string")
+            else:
+                d = {"name": name, "in": loc, "schema": sch}
+            if required or rng.random() < 0.3:
+                d["required"] = required
+            out.append((loc, d))
+    return path_vars, out
+
+
+def gen_document(rng, version="3.0", body_depth=2, with_ref=True):
+    nn = "x-nullable" if version == "2.0" else "nullable"
+    path_vars, params = gen_parameters(rng, version, nn)
+    path = "/r" + "".join("/{" + v + "}" for v in path_vars)
+    op = {"parameters": [d for _, d in params], "responses": {"200": {"description": "OK"}}}
+    body = None
+    comps = {}
+    if rng.random() < 0.75:
+        body = gen_oas_schema(rng, body_depth, nn)
+        if body.get("type") not in ("object", "array") and rng.random() < 0.5:
+            body = {"type": "object", "properties": {"a": body, "b": gen_oas_schema(rng, 1, nn, top=False)},
+                    "required": ["a"], "additionalProperties": False}
+        if with_ref and rng.random() < 0.3:
+            comps["Item"] = gen_oas_schema(rng, 1, nn)
+            ref = "#/definitions/Item" if version == "2.0" else "#/components/schemas/Item"
+            body = {"type": "object", "properties": {"item": {"$ref": ref}, "n": {"type": "integer"}}, "required": ["item"]}
+        required = rng.random() < 0.7
+        if version == "2.0":
+            op["parameters"].append({"name": "body", "in": "body", "required": required, "schema": body})
+            op["consumes"] = ["application/json"]
+        else:
+            op["requestBody"] = {"required": required, "content": {"application/json": {"schema": body}}}
+    if version == "2.0":
+        raw = {"swagger": "2.0", "info": {"title": "t", "version": "1"}, "paths": {path: {"post": op}}}
+        if comps:
+            raw["definitions"] = comps
+    else:
+        raw = {"openapi": "3.0.2" if version == "3.0" else "3.1.0", "info": {"title": "t", "version": "1"},
+               "paths": {path: {"post": op}}}
+        if comps:
+            raw["components"] = {"schemas": comps}
+    return {"raw": raw, "path": path, "method": "POST", "params": params, "body": body, "nn": nn, "version": version}
